@@ -117,6 +117,7 @@ def gen_axes(rng, c, nmaps, prof):
             ax["maps"][mi] = {"kind": kind, "bidir": bidir, "flip": flip, "dzc": dzc}
             src = rng.choice(["specific", "subdef", "global"])
             dz = rng.choice(DZ_CHOICES + [round(rng.random() * 0.95, 3)])
+            ax["maps"][mi]["dz"] = dz
             if src == "specific":
                 c.cfg.append("cfg.dz %d %s %d %d" % (mi, sub, code, f64bits(dz)))
                 c.cfg.append("cfg.defdz %d %s %d" % (mi, sub, f64bits(rng.choice(DZ_CHOICES))))
@@ -297,6 +298,24 @@ def gen_history(rng, c, prof):
                     seq += tap(inv0[rng.choice(cu[:1])])
                 seq += ["key %s %d 1" % (b[0], b[1]), "key %s %d 0" % (a[0], a[1]), "key %s %d 0" % (b[0], b[1])]
         ev += seq
+    # directed: an axis creeping in small steps across half travel (where a key-emulating axis presses, where learning
+    # starts to let values through) and back across 49 % (where it releases): every position is a new one and counts
+    if axes and rng.random() < prof.get("creep_p", 0.08):
+        ax = rng.choice(axes)
+        mn, mx = ax["min"], ax["max"]
+        if mx - mn >= 1000 and ax["maps"]:
+            dz = rng.choice(list(ax["maps"].values())).get("dz", 0.0)
+            side = rng.choice([1, -1]) if mn < 0 else 1
+            def raw_of(v):
+                x = dz + v * (1 - dz)
+                if mn < 0:
+                    return int(round(side * x * (mx if side > 0 else -mn)))
+                return int(round(mn + x * (mx - mn)))
+            step = max(1, (mx - mn) // 1600)
+            up = [raw_of(0.5) + k * step for k in range(-6, 7)]
+            down = [raw_of(0.49) + k * step for k in range(6, -7, -1)]
+            seq = up + [raw_of(0.9)] + down if rng.random() < 0.7 else up + down
+            ev += ["abs %s %s %d %d" % (ax["sub"], ax["node"], ax["code"], max(mn, min(mx, r))) for r in seq]
     # directed: the CC-learning key held while axes move a little (such movements are filtered) or a lot, then released;
     # the axes move again afterwards
     lk = [k for k, a in act_keys.items() if a == "cc_learning" and k not in exitseq and k not in down]
@@ -374,6 +393,9 @@ def gen_history(rng, c, prof):
 
 
 # ---------------------------------------------------------------- execution
+
+DEV_PROPS = ["C01", "C02", "C03", "C04", "C05", "C06", "C07", "C08", "C13", "C14"]
+
 
 def parse_outputs(text):
     """split runner/driver output into {cid: [lines]}"""
@@ -463,6 +485,18 @@ def execute(cases, binary, workdir, tag="dev", jobs=8):
             if ml and ml[-1].startswith("mon "):
                 mon = ml[-1]
                 ml = ml[:-1]
+            # a message that changed after the receiver had it (reported by the runner's slow sink): whatever the device
+            # sends later, the stream the receiver holds is no longer what was emitted — a failure of the implementation
+            # for every property that speaks about emitted messages
+            gl = local[str(c.cid)]["go"]
+            ch = next((k for k, l in enumerate(gl) if "CHANGED-AFTER-SENT" in l), None)
+            if ch is not None:
+                extra = " ".join("%s:%d:message-changed-after-it-was-sent" % (q, ch) for q in DEV_PROPS)
+                if mon.startswith("mon impl="):
+                    head, _, rest = mon.partition(" ; ")
+                    mon = head + (" " if head != "mon impl=" else "") + extra + " ; " + rest
+                else:
+                    mon = "mon impl=" + extra + " ; model="
             local[str(c.cid)]["model"] = ml
             local[str(c.cid)]["mon"] = mon
         return local
